@@ -597,8 +597,21 @@ impl<'a> Interp<'a> {
             }
             Exec::Foreach { array, item, index, body } => {
                 match self.eval(array) {
+                    Ok(Val::Arr(_)) if self.readonly.contains(item) || index.as_ref().map(|i| self.readonly.contains(i)).unwrap_or(false) => {
+                        // a read-only system variable is not a legal location for item / index
+                        self.error_execution();
+                        false
+                    }
                     Ok(Val::Arr(items)) => {
-                        // item / index are (re)declared
+                        // item / index are declared if they do not exist yet, also when there is nothing to iterate over
+                        if !self.data.contains_key(item) {
+                            self.data.insert(item.clone(), Val::Null);
+                        }
+                        if let Some(ix) = index {
+                            if !self.data.contains_key(ix) {
+                                self.data.insert(ix.clone(), Val::Null);
+                            }
+                        }
                         for (i, it) in items.iter().enumerate() {
                             self.data.insert(item.clone(), it.clone());
                             if let Some(ix) = index {
